@@ -1,8 +1,14 @@
 package simkit
 
 import (
+	"crypto/ed25519"
+	crand "crypto/rand"
+	"crypto/tls"
+	"crypto/x509"
+	"crypto/x509/pkix"
 	"fmt"
 	"io"
+	"math/big"
 	"net"
 	"os"
 	"strconv"
@@ -551,6 +557,8 @@ type NetNodeOptions struct {
 	Mod            func(o *gen.NodeOptions)
 	// SameSecond: do not let simulated time pass before this node starts
 	SameSecond bool
+	// TLSPort (> 0): a second acceptor on this port that speaks TLS (self-signed Ed25519 certificate)
+	TLSPort uint16
 }
 
 // StartNetNode starts a real node with networking enabled over the simulated network.
@@ -586,6 +594,11 @@ func StartNetNode(e *Env, sn *SimNet, o NetNodeOptions) gen.Node {
 		}
 		no.Network.Handshake = handshake.Create(handshake.Options{PoolSize: ps})
 		no.Network.Acceptors = []gen.AcceptorOptions{{Host: host, Port: o.Port, PortRange: o.Port, Cookie: o.AcceptorCookie, MaxMessageSize: o.MaxMessageSize}}
+		no.Network.InsecureSkipVerify = true
+		if o.TLSPort > 0 {
+			no.Network.Acceptors = append(no.Network.Acceptors, gen.AcceptorOptions{Host: host, Port: o.TLSPort, PortRange: o.TLSPort,
+				Cookie: o.AcceptorCookie, MaxMessageSize: o.MaxMessageSize, CertManager: gen.CreateCertManager(SimCert())})
+		}
 		if o.Mod != nil {
 			o.Mod(no)
 		}
@@ -604,4 +617,38 @@ func (sn *SimNet) SetLatency(min, jitter time.Duration) {
 	sn.mu.Lock()
 	sn.MinLatency, sn.Jitter = min, jitter
 	sn.mu.Unlock()
+}
+
+var simCert struct {
+	once sync.Once
+	cert tls.Certificate
+}
+
+// SimCert returns the process-wide self-signed certificate of simulated TLS acceptors. Ed25519 and
+// a fixed serial number: every field of the TLS handshake has the same length in every run, so the
+// number of bytes on the simulated wire (which drives segmentation) does not depend on the key.
+func SimCert() tls.Certificate {
+	simCert.once.Do(func() {
+		pub, priv, err := ed25519.GenerateKey(crand.Reader)
+		if err != nil {
+			panic(err)
+		}
+		tmpl := x509.Certificate{
+			SerialNumber:          big.NewInt(0x5eed5eed),
+			Subject:               pkix.Name{Organization: []string{"verifsim"}},
+			NotBefore:             time.Date(1999, 1, 1, 0, 0, 0, 0, time.UTC),
+			NotAfter:              time.Date(2199, 1, 1, 0, 0, 0, 0, time.UTC),
+			KeyUsage:              x509.KeyUsageDigitalSignature | x509.KeyUsageCertSign,
+			ExtKeyUsage:           []x509.ExtKeyUsage{x509.ExtKeyUsageServerAuth},
+			BasicConstraintsValid: true,
+			IsCA:                  true,
+			DNSNames:              []string{"h1", "h2", "h3"},
+		}
+		der, err := x509.CreateCertificate(crand.Reader, &tmpl, &tmpl, pub, priv)
+		if err != nil {
+			panic(err)
+		}
+		simCert.cert = tls.Certificate{Certificate: [][]byte{der}, PrivateKey: priv}
+	})
+	return simCert.cert
 }
